@@ -33,7 +33,7 @@ def make_cases(beh, kind, sizes_of, run, allq=0, zq=0, vmap="int", extra=None):
         o["zooms"] = b["zooms"]
         o["zmode"] = "manual"
         c = {"kind": kind, "chroms": sizes_of(b), "items": b["items"], "opts": o, "vmap": vmap, "allq": allq, "zq": zq,
-             "mz": b.get("mz", []), "scale": 1, "asq": "bed3"}
+             "mz": b.get("mz", []), "scale": 1, "asq": "bed3", "long": 0}
         if extra:
             c.update(extra(b, k, rng))
         cases.append(c)
@@ -58,11 +58,26 @@ def judge(run, pid, module, cases, nontrivial, describe, hang_timeout=20, known_
         log("[%s] failing observations by tag: %s" % (pid, tags))
     for i, tag in bad:
         o = obs[i]
-        rep = {"kind": "bbi", "tag": tag, "case": {k: o[k] for k in o if k != "obs"}, "obs": describe(o)}
+        rep = {"kind": "bbi", "tag": tag, "case": {k: (o[k] if not (o.get("long") and k == "items") else "generated: [1, 2i, 2i+1, 1+i%3] for i < 70000") for k in o if k != "obs"}, "obs": describe(o)}
         if tag.startswith("known:"):
             rep["known"] = tag.split(":", 1)[1]
-        run.violation("%s: %s on input %s opts %s" % (pid, tag, json.dumps(o["items"]), json.dumps(o["opts"])), rep)
+        run.violation("%s: %s on input %s opts %s" % (pid, tag, json.dumps(o["items"])[:400], json.dumps(o["opts"])), rep)
     return obs
+
+
+def emit_sim(run, module, cfg, num, depth=40):
+    """random walks (tlc -simulate) for layouts deeper than the exhaustive bounds"""
+    r = tlc(module, cfg, os.path.join(run.wd, "sim_" + cfg.replace(".cfg", "")), workers=4, timeout=3000, xmx="4g",
+            simulate=num, depth=depth, seed=run.seed)
+    tlc_must_pass(r, "%s/%s (simulation)" % (module, cfg))
+    run.add_tlc("simulate_" + cfg.replace(".cfg", ""), r)
+    seen, out = set(), []
+    for b in r.replays:
+        k = json.dumps(b, sort_keys=True)
+        if k not in seen:
+            seen.add(k)
+            out.append(b)
+    return out
 
 
 def emit(run, module, cfgs, min_behaviours=50):
